@@ -7,7 +7,7 @@ import argparse, os, re, subprocess, sys, tempfile, json, shutil
 from concurrent.futures import ThreadPoolExecutor
 V = os.path.dirname(os.path.dirname(os.path.abspath(__file__)))
 # commits that must be reverted together with the key (later repairs that touch the same lines / complete the repair)
-ALSO = {"0a00abe": ["462e02a"], "f0b72c2": ["d884ce3"], "f502b28": ["2195440"], "2e13e9e": ["e70bb2b"], "8c79d1e": []}
+ALSO = {"6a78d5f": ["be92640"], "0a00abe": ["462e02a"], "f0b72c2": ["d884ce3"], "f502b28": ["2195440"], "2e13e9e": ["e70bb2b"], "8c79d1e": []}
 
 
 def sh(cmd, **kw):
